@@ -793,7 +793,7 @@ func TestEnumerate(t *testing.T) {
 
 // ------------------------------------------------------------------ part (b)
 
-const randomRule = "rapid: random histories of 1..40 operations over the same alphabet as the exhaustive part, drawn against the reference model (only enabled operations; event versions biased to newest-1, newest, newest+1, the self-registered and the last relayed version; progressed/concluded with any version in 0..newest+1; the parent starts at version 0..3, sub-channels at 0..2); same per-operation oracle and closing de-registration; non-trivial as in the exhaustive part"
+const randomRule = "rapid: random histories of 1..40 operations over the same alphabet as the exhaustive part, drawn against the reference model (only enabled operations; event versions biased to newest-1, newest, newest+1, the self-registered and the last relayed version; progressed/concluded with any version in 0..newest+1; the parent starts at version 0..3, sub-channels at 0..2); same per-operation oracle and closing de-registration; In the random part a stop of a sub-channel may come with one more registered event that the adjudicator subscription hands over at the moment the watcher closes it (calls caused by that event are not judged; StopWatching must return). Every fourth version is a final state; a Register request marked secondary is reported. non-trivial as in the exhaustive part"
 
 // rawOp is a model-independent bundle of choices; drawCase interprets it
 // against the reference model, so that rapid can delete or simplify single
